@@ -123,6 +123,17 @@ fn stub_mg_share(_this: &MessageGenerator, _r1: &[u8], _r2: &[u8]) -> Result<Sha
   b[8] = 1;      // x = 1
   Ok(Share::from_bytes(&b).unwrap())
 }
+// the derivations are covered by k_star_derivations: fixed values here keep this twin about generate's
+// own logic (which output feeds what, payload framing, one encryption, the tag)
+fn stub_derive_random_values(_this: &MessageGenerator, _randomness: &[u8]) -> Vec<[u8; 32]> {
+  vec![[1u8; 32], [2u8; 32], [3u8; 32]]
+}
+fn stub_derive_key(_this: &MessageGenerator, r1: &[u8]) -> [u8; 16] {
+  // depends on its argument so that feeding the wrong r[i] is visible
+  let mut k = [9u8; 16];
+  k[0] = r1[0];
+  k
+}
 fn check_generate<const ML: usize, const AL: usize>(with_aux: bool) {
   let m: [u8; ML] = kani::any();
   let a: [u8; AL] = kani::any();
@@ -130,8 +141,9 @@ fn check_generate<const ML: usize, const AL: usize>(with_aux: bool) {
   let mg = core::mem::ManuallyDrop::new(MessageGenerator::new(SingleMeasurement::new(&m), 3, b"e"));
   let aux = if with_aux { Some(AssociatedData::new(&a)) } else { None };
   let msg = core::mem::ManuallyDrop::new(Message::generate(&mg, &rnd, aux).unwrap());
-  let r = core::mem::ManuallyDrop::new(mg.derive_random_values(&rnd));
-  let key = mg.derive_key(&r[0]);
+  let r = [[1u8; 32], [2u8; 32], [3u8; 32]];
+  let mut key = [9u8; 16];
+  key[0] = 1;
   // independent payload: 4-byte LE length prefix + bytes, per chunk
   let mut pl = [0u8; 16];
   let mut n = 0;
@@ -172,6 +184,8 @@ macro_rules! generate_twin {
     #[kani::stub(<strobe_rs::Strobe as core::ops::Drop>::drop, ks_noop_zeroize)]
     #[kani::stub(zeroize::optimization_barrier, ks_noop_barrier)]
     #[kani::stub(MessageGenerator::share, stub_mg_share)]
+    #[kani::stub(MessageGenerator::derive_random_values, stub_derive_random_values)]
+    #[kani::stub(MessageGenerator::derive_key, stub_derive_key)]
     fn $name() { check_generate::<$ml, $al>($aux); }
   };
 }
